@@ -6,6 +6,7 @@ with steps taken from search_method and random perturbations (other ids, other f
 cut / cases / introduction / forall_elim / exists_elim / revert_intro / new_var / inst_exists_goal).
 Only steps that complete without error are followed.  Nothing here is a proof.
 """
+import os
 import copy
 import json
 import random
@@ -15,10 +16,10 @@ import time
 
 def run(tier='quick', seed=0):
     t0 = time.time()
-    if '/repo' not in sys.path:
-        sys.path.insert(0, '/repo')
+    if os.environ.get('HOLPY_REPO', '/repo') not in sys.path:
+        sys.path.insert(0, os.environ.get('HOLPY_REPO', '/repo'))
     import os
-    os.chdir('/repo')
+    os.chdir(os.environ.get('HOLPY_REPO', '/repo'))
     from logic import basic, context
     basic.load_theory('logic_base')
     from kernel import theory
@@ -460,7 +461,7 @@ def run(tier='quick', seed=0):
     # ---------------------------------------------------------------- (2) recorded library steps
     thys = ['logic_base'] if tier == 'quick' else ['logic_base', 'logic', 'function', 'set']
     for thy_name in thys:
-        with open('/repo/library/%s.json' % thy_name, encoding='utf-8') as f:
+        with open(os.environ.get('HOLPY_REPO', '/repo') + '/library/%s.json' % thy_name, encoding='utf-8') as f:
             content = json.load(f)['content']
         vals = [v for v in content if v['ty'] == 'thm' and 'steps' in v]
         if tier != 'quick' and thy_name == 'set':
